@@ -11,7 +11,7 @@ from . import common as C
 from . import rhs_lib as L
 from . import ode_oracles as O
 
-CLAIM_MORE = 'NOW PROVED beyond one edge (coq/Props/C08t.v, 30 statements): with the master equation as an executable specification for any graph and direction-/node-dependent rates — pure and product-form initial conditions lie in the manifold M where the 2x2 minors across a susceptible cut vertex vanish; the master flow is tangent to M for every graph and cut vertex; on M the regenerated pair-based right-hand side at the marginals equals the marginals of the master equation, for every graph accepted by the executable tree_okb (evaluated on every tree up to 7/8 nodes on each run). Cited: the ODE lift to the returned curves.'
+CLAIM_MORE = 'NOW PROVED beyond one edge (coq/Props/C08t.v, 30 statements): with the master equation as an executable specification for any graph and direction-/node-dependent rates — pure and product-form initial conditions lie in the manifold M where the 2x2 minors across a susceptible cut vertex vanish; the master flow is tangent to M for every graph and cut vertex; on M the regenerated pair-based right-hand side at the marginals equals the marginals of the master equation, for every tree: the executable tree_okb is proved to accept exactly the forests (coq/Props/C08tree.v, 42 statements; trees as pendant-vertex construction = connected with |E| = |V|-1 = connected acyclic). Cited: the ODE lift to the returned curves.'
 
 CLAIM = dict(
     text="Machine-checked theorems (coq/Props/C08.v, closed under the global context) over right-hand sides GENERATED from EoN/analytic.py on "
